@@ -9,27 +9,7 @@ Require Import Fggs.Proofs.SCC_ntgraph Fggs.Proofs.BigSum Fggs.Proofs.SP_trees F
                Fggs.Proofs.SP_code Fggs.Proofs.SP_rename Fggs.Proofs.SP_spe Fggs.Proofs.SP_driver
                Fggs.Proofs.SP_main Fggs.Proofs.SP_corollaries Fggs.Proofs.SP_examples Fggs.Proofs.SP_scc_glue.
 Require Import Fggs.Proofs.Presentation Fggs.Proofs.Presentation_perm Fggs.Proofs.Presentation_nodes
-               Fggs.Proofs.Presentation_dom Fggs.Proofs.Presentation_relabel.
-
-(** rules correspond one by one, each up to a renumbering of its nodes *)
-Definition rules_nodes_perm (rs rs' : list rule) : Prop :=
-  Forall2 (fun r r' => exists p, rule_nodes_perm p r r') rs rs'.
-(** same label tables *)
-Definition same_tables (G G' : grammar) : Prop := g_doms G = g_doms G' /\ g_labels G = g_labels G'.
-
-Lemma same_tables_is_term G G' l : same_tables G G' -> is_term G' l = is_term G l.
-Proof. intros [_ H]. unfold is_term. now rewrite H. Qed.
-
-(** [G'] presents [G]: domain values permuted by [rho] (this changes only how weights and
-    results are indexed), labels renumbered by [pel] / [pnl] (giving [G2]), the nodes of every
-    rule renumbered ([G3]), the edge list of every rule permuted ([G4]), the rule list permuted *)
-Definition presents (rho : nat -> list nat) (pel pnl : nat -> nat) (G G' : grammar) : Prop :=
-  dom_perms G rho /\
-  exists G2 G3 G4,
-    relabelled pel pnl G G2
-    /\ same_tables G2 G3 /\ rules_nodes_perm (g_rules G2) (g_rules G3)
-    /\ same_tables G3 G4 /\ Forall2 rule_edges_perm (g_rules G3) (g_rules G4)
-    /\ same_tables G4 G' /\ Permutation (g_rules G4) (g_rules G').
+               Fggs.Proofs.Presentation_dom Fggs.Proofs.Presentation_relabel Fggs.Proofs.Presentation_wf.
 
 Section Cor.
 Context {R : Type} (o : sr_ops R) (Hring : sr_ring o).
@@ -100,14 +80,6 @@ Proof.
   intros Hwf Hrho Hw HX Hxi Ht. apply tree_sum_transfer; trivial. now apply Zk_dom_perm.
 Qed.
 
-Lemma presents_is_term rho pel pnl G G' X :
-  presents rho pel pnl G G' -> vlab G X -> is_term G' (pel X) = is_term G X.
-Proof.
-  intros (_ & G2 & G3 & G4 & Hrel & H23 & _ & H34 & _ & H45 & _) HX.
-  rewrite (same_tables_is_term G4 G' _ H45), (same_tables_is_term G3 G4 _ H34), (same_tables_is_term G2 G3 _ H23).
-  now apply (rl_term _ _ _ _ Hrel).
-Qed.
-
 Theorem tree_sum_presentation rho pel pnl G G' (w w' : env (R:=R)) k X xi :
   wf_grammar G = true -> presents rho pel pnl G G' ->
   (forall l idx, vlab G l -> vidx G l idx -> is_term G l = true ->
@@ -140,19 +112,20 @@ Proof.
   rewrite <- E1, <- E2, S1, S2, <- S3, <- S4. apply E.
 Qed.
 
-Theorem all_trees_presentation rho pel pnl G G' (w w' : env (R:=R)) rank rank' X xi :
+Theorem all_trees_presentation rho pel pnl G G' (w w' : env (R:=R)) rank X xi :
   wf_grammar G = true -> presents rho pel pnl G G' ->
   (forall l idx, vlab G l -> vidx G l idx -> is_term G l = true ->
                  w' (pel l) (pmap rho (ltype G l) idx) = w l idx) ->
-  ranked G rank -> ranked G' rank' -> vlab G X -> vidx G X xi -> is_term G X = false ->
+  ranked G rank -> vlab G X -> vidx G X xi -> is_term G X = false ->
   forall k k', length (nonterminals G) <= k -> length (nonterminals G') <= k' ->
     let xi' := pmap rho (ltype G X) xi in
     sumS o (enum_trees G' k' (pel X) xi') (weight o G' w') = sumS o (enum_trees G k X xi) (weight o G w)
     /\ (forall t, In t (enum_trees G k X xi) <-> wf_dtree G X xi t)
     /\ (forall t, In t (enum_trees G' k' (pel X) xi') <-> wf_dtree G' (pel X) xi' t).
 Proof.
-  intros Hwf Hp Hw Hrk Hrk' HX Hxi Ht k k' Hk Hk' xi'.
-  apply (all_trees_transfer G G' w w' rank rank'); trivial.
+  intros Hwf Hp Hw Hrk HX Hxi Ht k k' Hk Hk' xi'.
+  apply (all_trees_transfer G G' w w' rank (rank_back pel (length (g_labels G)) rank)); trivial.
+  - now apply (presents_ranked rho pel pnl).
   - now rewrite (presents_is_term rho pel pnl G G' X Hp HX).
   - intros j. now apply (Zk_presentation rho pel pnl).
 Qed.
@@ -210,12 +183,12 @@ Theorem sum_products_nonrec_presentation rho pel pnl G G' w w' ord ord' X xi :
   (forall l idx, vlab G l -> vidx G l idx -> is_term G l = true ->
                  env_of o w' (pel l) (pmap rho (ltype G l) idx) = env_of o w l idx) ->
   dep_ordered G [] ord -> dep_ordered G' [] ord' -> In X ord -> In (pel X) ord' ->
-  vlab G X -> vidx G X xi -> In (pmap rho (ltype G X) xi) (all_assts (lshape G' (pel X))) ->
+  vlab G X -> vidx G X xi ->
   env_of o (sum_products_nonrec o G' w' (map (fun x => [x]) ord')) (pel X) (pmap rho (ltype G X) xi)
   = env_of o (sum_products_nonrec o G w (map (fun x => [x]) ord)) X xi.
 Proof.
-  intros Hwf Hwf' Hp Hk Hk' Hw Hd Hd' HX HX' HvX Hxi Hxi'.
-  apply sum_products_nonrec_transfer; trivial.
+  intros Hwf Hwf' Hp Hk Hk' Hw Hd Hd' HX HX' HvX Hxi.
+  apply sum_products_nonrec_transfer; trivial; [now apply (presents_vidx rho pel pnl)|].
   intros k. now apply (Zk_presentation rho pel pnl).
 Qed.
 End Cor.
